@@ -63,7 +63,10 @@ def gen_network(rng, allow_general=True, allow_hill=True, nmax=4):
 
 
 def gen_grid(rng):
-    c = rng.below(4)
+    c = rng.below(5)
+    if c == 4:     # a grid that starts after the interface's initial time 0: the first row is not the initial state
+        t0 = rng.choice([0.5, 1.0, 2.5])
+        return t0 + np.linspace(0, rng.choice([1.0, 5.0]), rng.choice([5, 21]))
     if c == 0:
         return np.linspace(0, rng.choice([1.0, 5.0, 20.0]), rng.choice([5, 21, 51]))
     if c == 1:     # many grid points between two events
